@@ -98,7 +98,7 @@ def tasks(tier, seed):
     for t in NUMERIC:
         for sc in COEF_SCALES:
             ts.append(dict(kind='coef', tcode=t, scale=sc))
-    for variant in range(4):
+    for variant in range(10):
         for mode in ('eager', 'lazy'):
             ts.append(dict(kind='daqmx', variant=variant, mode=mode))
     for t in RAW_TYPES:
@@ -291,7 +291,19 @@ def _daqmx_file(variant):
     S = dm.Scaler
     props = [('NI_Number_Of_Scales', 7, 1)]
     big = variant % 2 == 1
-    if variant < 2:
+    if variant >= 4:
+        # two raw scalers of one channel combined by a final Add / Subtract scale, operands in both orders (so that left > right and
+        # left < right both occur in the planted samples), unsigned and mixed operand types
+        kind, (ta, tb), swap = [('Subtract', (2, 2), False), ('Subtract', (2, 2), True), ('Add', (2, 0), False), ('Subtract', (4, 2), True),
+                                ('Subtract', (0, 3), False), ('Add', (4, 4), True)][variant - 4]
+        l_, r_ = (1, 0) if swap else (0, 1)
+        P = 'NI_Scale[2]_'
+        props = [('NI_Number_Of_Scales', 7, 3), (P + 'Scale_Type', 0x20, kind), (P + kind + '_Left_Operand_Input_Source', 7, l_),
+                 (P + kind + '_Right_Operand_Input_Source', 7, r_)]
+        sa, sb = dm.DTYPES[ta][1], dm.DTYPES[tb][1]
+        chans = [dm.Chan("/'g'/'a'", [S(0, ta, 0, 0), S(1, tb, 0, sa)], 2, props), dm.Chan("/'g'/'b'", [S(0, 0, 0, sa + sb)], 2, [('NI_Number_Of_Scales', 7, 1)])]
+        widths = [sa + sb + 1]
+    elif variant < 2:
         t = 3 if variant == 0 else 8
         w = dm.DTYPES[t][1] + 2
         chans = [dm.Chan("/'g'/'a'", [S(0, t, 0, 1)], 2, props), dm.Chan("/'g'/'b'", [S(0, 0, 0, 0)], 2, props)]
